@@ -14,6 +14,17 @@ def run(ctx):
     vlib.apalache(ctx, "ApaStore", "Init", "IndInv", 0)
     vlib.apalache(ctx, "ApaStore", "IndInit", "IndInv", 1)
     vlib.apalache(ctx, "ApaStore", "IndInit", "ActionInv", 1)
+    # S1p: the same safety core for ARBITRARY key / owner / finalizer sets: a TLAPS proof (spec/StoreProof.tla: IndInv inductive,
+    # version discipline, never removed with finalizers, fresh incarnations are newer)
+    vlib.tlaps(ctx, "StoreProof")
+    if not quick:
+        mutp = ctx.sub("tlapsmut")
+        srcp = open(os.path.join(vlib.SPEC, "StoreProof.tla")).read()
+        assert "/\\ store[k].ver > 0 /\\ store[k].owner = o /\\ store[k].fins = {}" in srcp
+        open(os.path.join(mutp, "StoreProofMut.tla"), "w").write(
+            srcp.replace("MODULE StoreProof", "MODULE StoreProofMut").replace("/\\ store[k].ver > 0 /\\ store[k].owner = o /\\ store[k].fins = {}", "/\\ store[k].ver > 0 /\\ store[k].owner = o"))
+        vlib.tlaps(ctx, "StoreProofMut", expect_proved=False, specdir=mutp)
+        ctx.cov["binding_selftest"].append({"tlaps_mutant": "Destroy without the finalizer check", "proof_fails": True})
     if not quick:
         # non-vacuity: a store that forgets the finalizer check of Destroy must be refuted by the same run
         mut = ctx.sub("apamut")
